@@ -1,6 +1,7 @@
 import StorageModel.Cursor.KindsProofs
 import StorageModel.Cursor.StackedProofs
 import StorageModel.Cursor.ReuseProofs
+import StorageModel.Cursor.Multi
 /-
   C14 — Every set cursor enumerates its set exactly, in order, and seeks correctly.
 
@@ -554,6 +555,29 @@ example : (setSymReusable (fun k : Nat => if k = 0 then some [[97], [98]] else n
     [(0, []), (1, [.next]), (0, [.next, .next])] setSymNew =
     [.value (some [97]), .invalid, .invalid, .value (some [97]), .value (some [98]), .invalid] := by decide
 
+
+/-! ### several cursors alive at once -/
+
+/-- **Cursors alive at once do not disturb each other.**  For any well-formed descriptions opened
+    together (from one bucket object, one link collection, one store, one transaction) and any
+    interleaved script, the observations are those of each cursor run ALONE on the operations
+    addressed to it, i.e. of its own list specification — a `Next` or `Seek` on one never moves
+    another.  (True of the model because each modelled cursor owns its bbolt cursor, as
+    `bucket.Cursor()` per opening gives in the code; the correspondence run is what ties it.) -/
+theorem interleaved_cursors_independent (ds : List Desc) (hwf : ∀ d ∈ ds, d.WF) (script : List (Nat × Op)) :
+    multiRun ds script = multiSpec ds script := by
+  unfold multiRun multiSpec
+  congr 1
+  funext i
+  cases hi : ds[i]? with
+  | none => exact next_seek_mix .empty trivial _
+  | some d => exact next_seek_mix d (hwf d (List.mem_of_getElem? hi)) _
+
+/-- a forward and a reverse cursor over one list bucket walking in lock step -/
+example : multiRun [.tfwd 5 [[97], [98], [99]], .trev 5 [[97], [98], [99]]] [(0, .next), (1, .next), (0, .next), (1, .seek [97])] =
+    [.value (some [97]), .value (some [99]), .value (some [98]), .value (some [98]), .value (some [99]),
+     .value (some [97])] := by decide
+
 /-! ### non-vacuity and concrete instances -/
 
 /-- a well-formed nested description: union of a filtered typed reverse cursor and a tree set -/
@@ -600,3 +624,4 @@ end StorageModel.Properties.C14
 #print axioms StorageModel.Properties.C14.reopen_subquery_stacked
 #print axioms StorageModel.Properties.C14.scan_fallback_seek
 #print axioms StorageModel.Properties.C14.reopen_subquery_paged
+#print axioms StorageModel.Properties.C14.interleaved_cursors_independent
